@@ -115,3 +115,20 @@ def select_return(fnode, env, scope=None):
                 raise Unknown("statement %s" % type(st).__name__)
         return None
     return block(fnode.body)
+
+
+def specialise(node, env, scope=None, depth=0):
+    """The sub-expression `node` denotes under env: local names are replaced by their reaching definition and
+    conditional expressions by the branch their (integer) test selects.  Stops at the first node that is neither."""
+    while depth < 20:
+        depth += 1
+        if isinstance(node, ast.IfExp):
+            node = node.body if ceval(node.test, env, scope) else node.orelse
+            continue
+        if isinstance(node, ast.Name) and scope is not None and ast.unparse(node) not in env:
+            v = scope.reaching(node.id, node)
+            if v is not None:
+                node = v
+                continue
+        return node
+    raise Unknown("depth")
